@@ -327,6 +327,8 @@ def generic_main(prop, tier: str, seed: int) -> int:
         reported, known_hits, nonrepro, explore_wall = [], {}, [], time.monotonic() - t0
     finally:
         pool.close()
+        if hasattr(prop, "cleanup"):
+            prop.cleanup(plan)
 
     wall = time.monotonic() - t0
     for f in known_hits.values():
@@ -409,7 +411,9 @@ def selftest_determinism(prop, seed: int, n: int) -> int:
         configs.append(("w16-h7", n_workers(), "7"))
     digests: dict[str, dict[int, str]] = {}
     for name, workers, hs in configs:
-        pool = Pool(prop.__name__, {"default": base_env(hashseed=hs)}, workers)
+        env = dict((plan.get("flavours") or {}).get("default") or base_env())
+        env["PYTHONHASHSEED"] = hs
+        pool = Pool(prop.__name__, {"default": env}, workers)
         try:
             jobs = []
             for start in range(0, n, per):
@@ -425,6 +429,8 @@ def selftest_determinism(prop, seed: int, n: int) -> int:
             digests[name] = d
         finally:
             pool.close()
+    if hasattr(prop, "cleanup"):
+        prop.cleanup(plan)
     ref = digests[configs[0][0]]
     bad = 0
     for name, d in digests.items():
